@@ -210,6 +210,7 @@ type codegen struct {
 	prefix          string             // Lean name prefix of the functions of a sub-package
 	reservedStructs map[string][]field // struct names of the root package (a sub-package must not re-use them)
 	opaqueOf        map[fnKey]bool     // callees that are parameters of the translated functions
+	spOf            map[spKey]*spInfo  // code_opq.go: opaque state-passing callees (parameters as well)
 	cbTypes         map[string][]gtype // callback log type -> the parameter types of the callback
 	white2Set       map[fnKey]bool
 	structPhase     map[string]int
